@@ -29,9 +29,10 @@ Max2(a, b) == IF a >= b THEN a ELSE b
 New == [minbs |-> U16, maxbs |-> 0, minfs |-> INF, maxfs |-> 0, total |-> 0, metas |-> <<>>, frames |-> <<>>]
 
 \* every call returns [st, r] with r \in {"ok", "err"}
-AddFrame(st, bs, bytes) ==
+\* var: the frame's header uses the variable-blocksize strategy (its number is a start sample), num: that number
+AddFrame(st, bs, bytes, var, num) ==
   [st |-> [st EXCEPT !.minbs = Min2(bs, @), !.maxbs = Max2(bs, @), !.minfs = Min2(bytes, @), !.maxfs = Max2(bytes, @),
-                     !.total = @ + bs, !.frames = Append(@, [bs |-> bs, bytes |-> bytes])],
+                     !.total = @ + bs, !.frames = Append(@, [bs |-> bs, bytes |-> bytes, var |-> var, num |-> num])],
    r |-> "ok"]
 AddMeta(st, tag, len) == [st |-> [st EXCEPT !.metas = Append(@, [tag |-> tag, len |-> len])], r |-> "ok"]
 \* arguments that do not fit the field type are given as BIG (= -1)
@@ -45,6 +46,20 @@ SetFrameSizes(st, a, b) ==
   ELSE IF b = BIG THEN [st |-> [st EXCEPT !.minfs = a], r |-> "err"]
   ELSE [st |-> [st EXCEPT !.minfs = a, !.maxfs = b], r |-> IF a <= b THEN "ok" ELSE "err"]
 SetTotal(st, n) == [st |-> [st EXCEPT !.total = n], r |-> "ok"]
+
+\* ------------------------------------------------------------------ Stream::verify
+\* STREAMINFO: once total_samples is non-zero the four bounds must be ordered and the block sizes legal;
+\* frames: the strategy of the first frame decides - fixed: numbers 0, 1, 2, ...; variable: start samples
+\* are the running sum of the block sizes; a mixture never verifies.
+InfoVerifies(st) ==
+  st.total = 0 \/ (st.minbs <= st.maxbs /\ st.minbs <= MaxBs /\ st.maxbs <= MaxBs /\ st.minfs <= st.maxfs)
+FramesVerify(st) ==
+  LET f == st.frames
+      n == Len(f)
+      startOf(i) == FoldLeft(LAMBDA a, j : a + f[j].bs, 0, [j \in 1..(i - 1) |-> j])
+  IN n = 0 \/ (IF f[1].var THEN \A i \in 1..n : f[i].var /\ f[i].num = startOf(i)
+                           ELSE \A i \in 1..n : ~f[i].var /\ f[i].num = i - 1)
+VerifyOk(st) == InfoVerifies(st) /\ FramesVerify(st)
 
 \* ------------------------------------------------------------------ wire view
 Wire(st) ==
@@ -61,7 +76,7 @@ Wire(st) ==
        bytes |-> 42 + FoldLeft(LAMBDA a, m : a + 4 + m.len, 0, st.metas) + FoldLeft(LAMBDA a, f : a + f.bytes, 0, st.frames) ]
 
 \* ------------------------------------------------------------------ small-scope model
-CONSTANTS Palette,      \* set of [bs, bytes] frames
+CONSTANTS Palette,      \* set of [bs, bytes, var, num] frames
           MetaKinds,    \* set of [tag, len]
           SizeArgs,     \* arguments tried for the setters (naturals and BIG)
           MaxCalls
@@ -71,7 +86,7 @@ Init == st = New /\ calls = 0 /\ setters = FALSE
 Do(res) == st' = res.st /\ calls' = calls + 1
 Next ==
   /\ calls < MaxCalls
-  /\ \/ \E f \in Palette : Do(AddFrame(st, f.bs, f.bytes)) /\ UNCHANGED setters
+  /\ \/ \E f \in Palette : Do(AddFrame(st, f.bs, f.bytes, f.var, f.num)) /\ UNCHANGED setters
      \/ \E m \in MetaKinds : Do(AddMeta(st, m.tag, m.len)) /\ UNCHANGED setters
      \/ \E a, b \in SizeArgs : Do(SetBlockSizes(st, a, b)) /\ setters' = TRUE
      \/ \E a, b \in SizeArgs : Do(SetFrameSizes(st, a, b)) /\ setters' = TRUE
@@ -95,6 +110,9 @@ BoundsExact ==
      /\ w.minbs = SetMin(FrameBs) /\ w.maxbs = SetMax(FrameBs)
      /\ w.minfs = SetMin(FrameBytes) /\ w.maxfs = SetMax(FrameBytes)
      /\ w.total = FoldLeft(LAMBDA a, f : a + f.bs, 0, st.frames)
+\* frames numbered in order, added with add_frame alone, give a stream that verifies
+WellNumberedVerifies ==
+  (~setters /\ Len(st.frames) >= 1 /\ FramesVerify(st)) => VerifyOk(st)
 \* before the first frame the size fields read "unknown", never the sentinels
 NoSentinelOnWire == LET w == Wire(st) IN w.minfs < 16777216 /\ w.maxfs < 16777216 /\ (st.minfs = INF /\ st.maxfs = 0 => w.minfs = 0 /\ w.maxfs = 0)
 =============================================================================
